@@ -159,7 +159,7 @@ fn special(t: &str, r: &mut Rng) -> u64 {
 	match t {
 		"f32" => *r.pick(&F32_SPECIAL) as u64,
 		// (event command bytes 0x10, 0x35..0x3D are planted too: data that looks like framing)
-		"u8" | "i8" => *r.pick(&[0u64, 1, 0x7F, 0x80, 0xFE, 0xFF, 14, 3, 4, 0x39, 0x36, 0x10, 0x55, 0x7d]),
+		"u8" | "i8" => *r.pick(&[0u64, 1, 0x7F, 0x80, 0xFE, 0xFF, 0xFF, 0xFF, 14, 3, 4, 0x39, 0x36, 0x10, 0x55, 0x7d]),
 		"u16" | "i16" => *r.pick(&[0u64, 1, 0x7FFF, 0x8000, 0xFFFE, 0xFFFF, 0x0100, 0x00FF, 0x3939, 0x3900, 0x0039]),
 		_ => *r.pick(&[0u64, 1, 0x7FFF_FFFF, 0x8000_0000, 0xFFFF_FFFE, 0xFFFF_FFFF, 0x0100_0000, 0x0000_00FF, 0x3939_3939, 0x3900_0039]),
 	}
@@ -295,7 +295,9 @@ pub fn build_start_block(db: &LayoutDb, ver: [u8; 3], occ: &[String], len: usize
 					buf[i] = if occ[p] == "ic" {
 						db.blocks.ice_climbers
 					} else {
-						let mut c = r.byte();
+						// any byte but the Ice Climbers id; one time in six an id next to it or one that a reader might
+						// confuse with it (13, 15; 32 and 33, the ids some tables give to Popo and Nana alone)
+						let mut c = if r.chance(1, 6) { *r.pick(&[13u8, 15, 32, 33, 0, 25, 26, 255]) } else { r.byte() };
 						if c == db.blocks.ice_climbers {
 							c = 2;
 						}
